@@ -180,3 +180,22 @@ func (p *Prog) SortedContractKeys() []string {
 	sort.Strings(ks)
 	return ks
 }
+
+// GoAtLeast reports whether the go directive of the module at the root is at least major.minor (false when it cannot
+// be read: the older semantics is the cautious answer for loop variables).
+func (p *Prog) GoAtLeast(major, minor int) bool {
+	b, err := os.ReadFile(filepath.Join(p.Root, "go.mod"))
+	if err != nil {
+		return false
+	}
+	for _, ln := range strings.Split(string(b), "\n") {
+		f := strings.Fields(ln)
+		if len(f) == 2 && f[0] == "go" {
+			var a, c int
+			if n, _ := fmt.Sscanf(f[1], "%d.%d", &a, &c); n == 2 {
+				return a > major || (a == major && c >= minor)
+			}
+		}
+	}
+	return false
+}
